@@ -249,6 +249,26 @@ def _helper_shape(h):
     items = list(nb.get('inner', []))
     if len(items) == 1 and items[0].get('kind') == 'ReturnStmt' and items[0].get('inner'):
         return ('expr', items[0]['inner'][0])
+    # a predicate written as a chain of early returns: if (c1) return 1; if (c2) return 1; ... return 0;  ==  c1 || c2 || ...
+    raw = None
+    for c in h.get('inner', []):
+        if c.get('kind') == 'CompoundStmt':
+            raw = list(c.get('inner', []))
+    if raw and len(raw) >= 2 and raw[-1].get('kind') == 'ReturnStmt' and raw[-1].get('inner'):
+        def const_ret(st):
+            items_ = st.get('inner', []) if st.get('kind') == 'CompoundStmt' else [st]
+            if len(items_) == 1 and items_[0].get('kind') == 'ReturnStmt' and items_[0].get('inner'):
+                v = strip(items_[0]['inner'][0], casts=True)
+                if v.get('kind') == 'IntegerLiteral':
+                    return v.get('value')
+            return None
+        last = strip(raw[-1]['inner'][0], casts=True)
+        if last.get('kind') == 'IntegerLiteral' and last.get('value') == '0' and all(
+                st.get('kind') == 'IfStmt' and len(st['inner']) == 2 and const_ret(st['inner'][1]) == '1' for st in raw[:-1]):
+            e = raw[0]['inner'][0]
+            for st in raw[1:-1]:
+                e = {'kind': 'BinaryOperator', 'opcode': '||', 'type': {'qualType': 'int'}, 'inner': [e, st['inner'][0]], '_line': st.get('_line')}
+            return ('expr', e)
     rets = _returns(nb)
     if not rets:
         return ('void', items)
